@@ -178,3 +178,12 @@ Proof.
   - symmetry. apply Z.div_unique with r; [left; exact H|reflexivity].
   - symmetry. apply Z.mod_unique with q; [left; exact H|reflexivity].
 Qed.
+
+(* nested reductions merged: (a mod P + b) mod P = (a + b) mod P, ... (fewer Euclidean divisions for lia) *)
+Lemma Pnz : P <> 0. Proof. unfold P; lia. Qed.
+Ltac merge_mods :=
+  repeat first
+  [ rewrite (Z.add_mod_idemp_l _ _ P Pnz) in *
+  | rewrite (Z.add_mod_idemp_r _ _ P Pnz) in *
+  | rewrite (Zminus_mod_idemp_l _ _ P) in *
+  | rewrite (Zminus_mod_idemp_r _ _ P) in * ].
